@@ -148,7 +148,7 @@ def nops_phase(R, exe):
     rng = R.rng
     lines, want, lays = [], [], []
     for li in range(3 if R.tier == "quick" else 24):
-        ps = rng.choice([4096, 4096, 8192, 16384, 65536]) if li else 4096
+        ps = rng.choice([4096, 4096, 8192, 16384]) if li else 4096
         L = Layout(rng, R.path("c12-nops-%d.elf" % li), ps=ps, kind="elf")
         L.machine = NOPS_MACHINES[li] if li < 2 else rng.choice(NOPS_MACHINES + [rng.randrange(260, 0xff00)])
         L.kphys_off = 0
@@ -394,8 +394,8 @@ def run(R):
                     "(-1,0,+1, zero length, several pages then a hole) in all three address spaces; strings of every small length at every "
                     "offset before a page end, strings running into a hole; ELF cores of machines without a default page size (EM_PPC, EM_IA_64, "
                     "unassigned numbers): reads and string reads in all address spaces while the page size is not known, then again after arch.page_size "
-                    "was set (4K..64K); non-trivial = distinct non-zero-length cases",
+                    "was set (4K..16K); non-trivial = distinct non-zero-length cases",
                traces_validated_against_impl=len(impl), alloc_faults_fired=nfault, correspondence_first_diff=mism, case_kinds=kinds, miss_statuses=misses,
                samples=[dict(case=cases[i][1], observed=impl[i]) for i in (0, len(cases) // 2, len(cases) - 1) if i < len(impl)])
-    return "proof", cov, ["page size 4096 (ELF x86_64) in the main stream, 4K..64K in the unknown-page-size stream; range does not wrap the address space",
+    return "proof", cov, ["page size 4096 (ELF x86_64) in the main stream, 4K..16K in the unknown-page-size stream; range does not wrap the address space",
                           "a page fetch returns a whole page or a non-OK status (OracleSound); what it returns is C01's subject"]
